@@ -1,7 +1,7 @@
 """C12 — instruction read/write information: table / database agreement clauses (DESIGN.md section 3 / C12)."""
 import re
 from lib import regen, core, cfg, nametables
-from lib import x86db, x86rm
+from lib import x86db, x86rm, rwexits
 from checks.C17 import load_a64_db
 
 
@@ -100,6 +100,9 @@ def run(chk):
 
     # ---------------------------------------------------------------- C12.c register-or-memory information
     x86rm.run(chk, fx)
+
+    # ---------------------------------------------------------------- C12.d AVX-512 masking is applied on every exit of a category
+    rwexits.run(chk)
 
     return chk.finish(
         level="other",
